@@ -604,7 +604,8 @@ class DatasetWorld(object):
                 st["values"] = sorted(set(rng.choice([lo - 1, lo, lo + 0.25, (lo + hi) / 2.0, hi]) for _ in range(rng.randint(1, 3))))
             elif what == "concatenate_ds":
                 st["shift"] = rng.choice([100, 200])
-                st["align"] = rng.random() < 0.3
+                st["align"] = rng.random() < 0.4
+                st["secondary_differs"] = rng.random() < 0.5
         elif what == "reindex_like":
             used = [d for d in dims if any(d in v["dims"] for v in m.vars.values())]
             if not used:
@@ -623,6 +624,7 @@ class DatasetWorld(object):
             st["keys"] = V.gen_labels(rng, st["n"], rng.choice(["int", "str"]))
             st["align"] = rng.random() < 0.4
             st["perturb"] = rng.random() < 0.5
+            st["secondary_differs"] = rng.random() < 0.4
         elif what == "ds_op_ds":
             st["fn"] = rng.choice(["add", "sub", "mul"])
             st["drop_key"] = rng.random() < 0.3
